@@ -19,7 +19,8 @@ CONSTANTS Add(_, _), Mul(_, _), Le(_, _),      \* numbers
           DivS(_, _), ModS(_, _),              \* number div Int -> number ; number mod Int -> Int   (Int small)
           OfInt(_),                            \* Int -> number
           Exact,                               \* TRUE: pro-rata bound without tolerance (small integers)
-          Tol                                  \* number 10^12 (tolerance denominator) when ~Exact
+          Tol,                                 \* number 10^12 (tolerance denominator) when ~Exact
+          E18                                  \* number 10^18 (one unit in the last place of sdk.Dec) when ~Exact
 
 Zero == OfInt(0)
 One  == OfInt(1)
@@ -110,6 +111,9 @@ Elig(pools, g, u) ==
             IN MinN(m, c)
        ELSE VNum(pools[g.pool], u.pos[g.pool])
 
+(* the common denominator the Elig numerators are over (value of user u = 2 * Elig / EligDen in the code's units) *)
+EligDen(pools, g) == IF UseMaster(pools, g) THEN Mul(VDen(pools[g.pool]), ProdDen(pools, LiveChilds(pools, g))) ELSE VDen(pools[g.pool])
+
 RECURSIVE TotalEligAt(_, _, _, _)
 TotalEligAt(pools, g, users, i) == IF i = 0 THEN Zero ELSE Add(Elig(pools, g, users[i]), TotalEligAt(pools, g, users, i - 1))
 TotalElig(pools, g, users) == TotalEligAt(pools, g, users, Len(users))
@@ -126,6 +130,15 @@ ProRataOK(pay, alloc, e, tot) ==
   /\ IsZero(tot) => IsZero(pay)
   /\ IF Exact THEN Le(Mul(pay, tot), Mul(alloc, e))
      ELSE Le(Mul(Mul(pay, tot), Tol), Mul(Mul(alloc, e), Add(Tol, One)))
+(* The same bound with the slack of the code's fixed-point arithmetic: the multiplier alloc/total is rounded to 18   *)
+(* decimals before it is multiplied with the farmer's value (2*e/den), which can lift a payout by value*10^-18:      *)
+(* (plus one unit in the last place for the rounding of that product):                                               *)
+(*    pay <= alloc*e/tot*(1 + 10^-12) + (e/den + 1)*10^-18                                                            *)
+ProRataNoiseOK(pay, alloc, e, tot, den) ==
+  /\ IsZero(tot) => IsZero(pay)
+  /\ IF Exact THEN Le(Mul(pay, tot), Mul(alloc, e))
+     ELSE Le(Mul(Mul(Mul(Mul(pay, tot), Tol), den), E18),
+             Add(Mul(Mul(Mul(Mul(alloc, e), Add(Tol, One)), den), E18), Mul(Mul(Add(e, den), tot), Tol)))
 (* what is paid in one epoch is at most the allocation of that epoch; cumulative never above the deposit *)
 EpochCapOK(paid, alloc) == Le(paid, alloc)
 CumulativeOK(g) == Le(g.dist, g.dep) /\ g.trig <= g.tot
@@ -191,10 +204,10 @@ GaugeEpochRel(pools, g, now, paid, g2) ==
        \/ SameGauge(g, g2) /\ IsZero(paid)     \* computed sum above the allocation: ErrInvalidCalculatedAMount, nothing paid
 
 (* the ideal payout floor(alloc*e/tot); the code's sdk.Dec/float path may land slightly beside it:        *)
-(* exact algebra: one below at most ; real-size algebra: within the relative tolerance and two units        *)
-PayNear(pay, alloc, e, tot) ==
+(* exact algebra: one below at most ; real-size algebra: within the tolerance (+ fixed-point slack) and two units *)
+PayNear(pay, alloc, e, tot, den) ==
   IF IsZero(tot) THEN IsZero(pay)
   ELSE IF Exact THEN Le(Mul(pay, tot), Mul(alloc, e)) /\ Lt(Mul(alloc, e), Mul(Add(pay, OfInt(2)), tot))
-  ELSE /\ Le(Mul(Mul(pay, tot), Tol), Mul(Mul(alloc, e), Add(Tol, One)))
+  ELSE /\ ProRataNoiseOK(pay, alloc, e, tot, den)
        /\ Lt(Mul(Mul(alloc, e), Tol), Mul(Mul(Add(pay, OfInt(2)), tot), Add(Tol, One)))
 =============================================================================
